@@ -122,6 +122,9 @@ def main():
               phases=[Phase.generate, Phase.shrink], verbosity=Verbosity.quiet)
     @given(prop.strategy(args.tier))
     def search(case):
+        # Hypothesis lowers the interpreter's recursion limit to ~2000 frames while a test runs; deep (but finite) trees
+        # of the nesting-limit classes need more in the pure-Python model code
+        sys.setrecursionlimit(200000)
         last.write(case)
         stats.evaluations += 1
         try:
